@@ -17,7 +17,7 @@ Rec == ndJsonDeserialize(IOEnv.TRACE)
 VARIABLES l, failed, drift
 vars == <<l, failed, drift>>
 
-IS == INSTANCE Impl_Stream WITH Modes <- {}, Buf <- 32, ColorOnly <- FALSE, Fixes <- {"D1", "D14", "D2", "D18", "D19", "D20", "D21", "D23", "D24"}
+IS == INSTANCE Impl_Stream WITH Modes <- {}, Buf <- 32, ColorOnly <- FALSE, Fixes <- {"D1", "D14", "D2", "D18", "D19", "D20", "D21", "D23", "D24", "D25"}
 RECURSIVE ImplRun(_, _, _)
 ImplRun(h, st, k) == IF k > Len(h) THEN st ELSE ImplRun(h, IS!Step(st, k, h[k]), k + 1)
 ImplSy(e) == IS!Finish(ImplRun(e.lines, IS!InitS, 1)).sy
